@@ -43,7 +43,7 @@ import time as _time
 import types
 from typing import Any, Callable, Iterable
 
-from engine.api import HarnessModelError
+from engine.api import HarnessModelError, harness_side
 
 MARK = "__coop_gen__"
 _DEBUG = False
@@ -1087,4 +1087,7 @@ def replay_real(unit: "Unit", thread_bodies: list[Callable[[], Any]], trace: lis
         "turn": st["turn"],
         "results": results,
         "exceptions": [repr(e) if e is not None else None for e in excs],
+        # non-empty entries: the exception is the harness's own model giving up (a fake lacks an
+        # attribute, a stub left its model) -- callers must not count it as behaviour of the code
+        "harness_side": [w for w in (harness_side(e) for e in excs if e is not None) if w],
     }
